@@ -294,6 +294,19 @@ k("K126", "C13", "datacodec/timestamp.go", "\t\tif millis, overflow = multiplyEx
   "flag-examined:datacodec.ConvertTimeToEpochMillis -> multiplyExact#2", "overflow flag overwritten before it is tested")
 k("K127", "C13", "datacodec/int.go", "\tcase int64:\n\t\tval, err = int64ToInt32(s)\n", "\tcase int64:\n\t\tval, _ = int64ToInt32(s)\n",
   "flag-examined:datacodec.convertToInt32 -> int64ToInt32#1", "range error discarded")
+# ---- primitive byte-level rules (C01 primitive-pairing, C02 primitive-layout)
+k("K144", "C01", "primitive/short_bytes.go", "func ReadShortBytes(source io.Reader) ([]byte, error) {\n\tif length, err := ReadShort(source); err != nil {", "func ReadShortBytes(source io.Reader) ([]byte, error) {\n\tif length, err := ReadInt(source); err != nil {",
+  "primitive-pairing:shortbytes", "length read as [int] but written as [short]")
+k("K145", "C01", "primitive/integers.go", "\tif err := binary.Write(dest, binary.BigEndian, l); err != nil {\n\t\treturn fmt.Errorf(\"cannot write [long]: %w\", err)", "\tif err := binary.Write(dest, binary.LittleEndian, l); err != nil {\n\t\treturn fmt.Errorf(\"cannot write [long]: %w\", err)",
+  "primitive-pairing:long", "little-endian writer, big-endian reader")
+k("K146", "C01", "primitive/bytes.go", "func ReadBytes(source io.Reader) ([]byte, error) {\n\tif length, err := ReadInt(source); err != nil {\n\t\treturn nil, fmt.Errorf(\"cannot read [bytes] length: %w\", err)\n\t} else if length < 0 {", "func ReadBytes(source io.Reader) ([]byte, error) {\n\tif length, err := ReadInt(source); err != nil {\n\t\treturn nil, fmt.Errorf(\"cannot read [bytes] length: %w\", err)\n\t} else if length < -1 {",
+  "primitive-pairing:bytes", "null marker -1 is no longer accepted by the reader's null path")
+k2("K147", "C02", [("primitive/string.go", "\tif length, err := ReadShort(source); err != nil {\n\t\treturn \"\", fmt.Errorf(\"cannot read [string] length: %w\", err)", "\tif length, err := ReadInt(source); err != nil {\n\t\treturn \"\", fmt.Errorf(\"cannot read [string] length: %w\", err)"),
+   ("primitive/string.go", "\tif err := WriteShort(uint16(length), dest); err != nil {\n\t\treturn fmt.Errorf(\"cannot write [string] length: %w\", err)", "\tif err := WriteInt(int32(length), dest); err != nil {\n\t\treturn fmt.Errorf(\"cannot write [string] length: %w\", err)")],
+  "primitive-layout:string", "[string] length 4 bytes on both sides: symmetric, invisible to pairing")
+k("K148", "C02", "primitive/integers.go", "\tif err := binary.Write(dest, binary.BigEndian, l); err != nil {\n\t\treturn fmt.Errorf(\"cannot write [long]: %w\", err)", "\tif err := binary.Write(dest, binary.LittleEndian, l); err != nil {\n\t\treturn fmt.Errorf(\"cannot write [long]: %w\", err)",
+  "primitive-layout:long", "little-endian [long]")
+
 # ---- C11
 k("K44", "C11", "datacodec/bigint.go", "\tcase *uint16:\n\t\tif d == nil {\n\t\t\terr = ErrNilDestination\n\t\t} else if wasNull {\n\t\t\t*d = 0\n\t\t} else {\n\t\t\t*d, err = int64ToUint16(val)\n\t\t}\n", "",
   "type-symmetry:bigintCodec source *uint16", "source type accepted, destination type not")
@@ -357,6 +370,29 @@ k("K124", "C14", "datacodec/varint.go", "\tval := readBigInt(source)\n\twasNull 
   "decode-guard:varintCodec.Decode(nil)", "NULL varint reported as present")
 k("K125", "C14", "datacodec/injectors.go", "\tif valueWasNull {\n\t\tzero := reflect.Zero(elementType)\n\t\ti.dest.Index(index).Set(zero)\n\t} else {", "\tif valueWasNull {\n\t\t_ = reflect.Zero(elementType)\n\t} else {",
   "null-element:sliceInjector.setElem(null)", "NULL element keeps the previous slice element")
+
+# ---- rules added after the second round of seeded changes
+k("K149", "C11", "datacodec/conversions.go", "func int32ToUint16(val int32) (uint16, error) {\n\tif val < 0 || val > math.MaxUint16 {", "func int32ToUint16(val int32) (uint16, error) {\n\tif val < 0 || val > math.MaxInt16 {",
+  "helper-tight:datacodec.int32ToUint16", "range check stricter than the target type")
+k2("K150", "C11", [("datacodec/injectors.go", "\treturn &mapInjector{dest}, nil", "\treturn &mapInjector{dest: dest}, nil"), ("datacodec/injectors.go", "type mapInjector struct {\n\tdest reflect.Value\n}", "type mapInjector struct {\n\tdest    reflect.Value\n\tscratch reflect.Value\n}"),
+   ("datacodec/injectors.go", "func (i *mapInjector) zeroKey(_ int) (interface{}, error) {\n\tzero := ensurePointer(nilSafeZero(i.dest.Type().Key()))\n\treturn zero.Interface(), nil", "func (i *mapInjector) zeroKey(_ int) (interface{}, error) {\n\tif !i.scratch.IsValid() {\n\t\ti.scratch = ensurePointer(nilSafeZero(i.dest.Type().Key()))\n\t}\n\treturn i.scratch.Interface(), nil")],
+  "fresh-element:(*datacodec.mapInjector).zeroKey", "one decoding target reused for every key")
+k("K151", "C14", "datacodec/varchar.go", "\tcase []rune:\n\t\tif s != nil {\n\t\t\tval = []byte(string(s))\n\t\t}", "\tcase []rune:\n\t\tval = []byte(string(s))",
+  "nil-source:convertToStringBytes nil []rune", "nil []rune encoded as an empty string")
+k("K152", "C02", "primitive/short_bytes.go", "\t} else if length < 0 {\n\t\treturn nil, nil", "\t} else if int16(length) < 0 {\n\t\treturn nil, nil",
+  "primitive-layout:shortbytes", "lengths >= 32768 taken for null: content not consumed")
+k("K153", "C12", "primitive/short_bytes.go", "\t} else if length < 0 {\n\t\treturn nil, nil", "\t} else if int16(length) < 0 {\n\t\treturn nil, nil",
+  "notation-layout:shortbytes", "v2 collection elements of 32 KiB and more decode as null")
+k2("K154", "C18", [("frame/encode.go", "\t\"io\"\n", "\t\"io\"\n\t\"sync\"\n"),
+   ("frame/encode.go", "func (c *codec) EncodeBody(header *Header, body *Body, dest io.Writer) error {", "var scratchBuffers = sync.Pool{New: func() interface{} { return &bytes.Buffer{} }}\n\nfunc (c *codec) EncodeBody(header *Header, body *Body, dest io.Writer) error {"),
+   ("frame/encode.go", "\t\t\tuncompressedBody := bytes.NewBuffer(make([]byte, 0, uncompressedBodyLength))\n", "\t\t\tuncompressedBody := scratchBuffers.Get().(*bytes.Buffer)\n\t\t\tdefer scratchBuffers.Put(uncompressedBody)\n\t\t\tuncompressedBody.Grow(uncompressedBodyLength)\n"),
+   ("frame/encode.go", "\t\t\t\treturn fmt.Errorf(\"cannot compress body: %w\", err)\n\t\t\t}\n\t\t\treturn nil", "\t\t\t\treturn fmt.Errorf(\"cannot compress body: %w\", err)\n\t\t\t}\n\t\t\tuncompressedBody.Reset()\n\t\t\treturn nil")],
+  "pool-hygiene:(*frame.codec).EncodeBody Get#1", "pooled scratch buffer returned dirty on the error exits")
+k2("K155", "C01", [("frame/encode.go", "\t\"io\"\n", "\t\"io\"\n\t\"sync\"\n"),
+   ("frame/encode.go", "func (c *codec) EncodeBody(header *Header, body *Body, dest io.Writer) error {", "var scratchBuffers = sync.Pool{New: func() interface{} { return &bytes.Buffer{} }}\n\nfunc (c *codec) EncodeBody(header *Header, body *Body, dest io.Writer) error {"),
+   ("frame/encode.go", "\t\t\tuncompressedBody := bytes.NewBuffer(make([]byte, 0, uncompressedBodyLength))\n", "\t\t\tuncompressedBody := scratchBuffers.Get().(*bytes.Buffer)\n\t\t\tdefer scratchBuffers.Put(uncompressedBody)\n\t\t\tuncompressedBody.Grow(uncompressedBodyLength)\n"),
+   ("frame/encode.go", "\t\t\t\treturn fmt.Errorf(\"cannot compress body: %w\", err)\n\t\t\t}\n\t\t\treturn nil", "\t\t\t\treturn fmt.Errorf(\"cannot compress body: %w\", err)\n\t\t\t}\n\t\t\tuncompressedBody.Reset()\n\t\t\treturn nil")],
+  "pool-hygiene:(*frame.codec).EncodeBody Get#1", "a rejected frame's partial body is prepended to the next compressed frame")
 
 
 json.dump(C, open(os.path.join(os.path.dirname(os.path.abspath(__file__)), "controls.json"), "w"), indent=1)
